@@ -16,7 +16,8 @@ META = {
              'unding midpoints beyond 2^53; slices: narrowing conversions '
              'as the slice converter applies them.'
              " Round 12: results handed out earlier are compared again after the transformer converted further arrays of the same shape."
-             " Round 16: sub-check type_grid (every input type x output type x form x copy mode with the pair's boundary values)."),
+             " Round 16: sub-check type_grid (every input type x output type x form x copy mode with the pair's boundary values)."
+             " Round 17: one array object converted twice (lent with preserve_input=False, refilled, then preserve_input=True)."),
     "trusted_base": ["vlib/refs/dtype_ref.py (Fraction arithmetic)"],
     "assumptions": ["finite values only; float64 values beyond the float32 "
                     "range are not offered to a float32 target"],
@@ -221,6 +222,37 @@ def check_case(ctx, case):
                              case["preserve"]))
             if v not in ok:
                 nontrivial = True
+    # the same array object is converted twice: first lent for in-place work
+    # (preserve_input=False, after which its contents are whatever the
+    # transformer left there), then - as it is now - with preserve_input=True:
+    # the second call must leave it alone and convert what it holds
+    x = build(case)
+    try:
+        with np.errstate(all="ignore"):
+            t(x, preserve_input=False)
+            if x.flags.writeable:
+                # (a reader that recycles one buffer: new values arrive in it)
+                x[...] = np.asarray(build(dict(case, values=values[::-1]))
+                                    ).astype(x.dtype)
+            held = x.tobytes()
+            now = [v.item() for v in np.asarray(x).reshape(-1)]
+            r2 = t(x, preserve_input=True)
+    except Exception as exc:
+        ctx.fail("second conversion of one array object raised %s: %s "
+                 "(%s->%s, form=%s)" % (type(exc).__name__, exc, in_dtype,
+                                        out, case["form"]))
+    if x.tobytes() != held:
+        ctx.fail("input modified although preserve_input=True, after the "
+                 "same array had been converted with preserve_input=False "
+                 "(%s->%s, form=%s)" % (in_dtype, out, case["form"]))
+    if not any(f17(in_dtype, out, v) for v in now) and \
+            not any(isinstance(v, float) and v != v for v in now):
+        for v, r in zip(now, np.asarray(r2).reshape(-1).tolist()):
+            if r not in dtype_ref.convert_value(v, out):
+                ctx.fail("%s value %r -> %s gives %r on the second use of "
+                         "one array object (form=%s), exact reference %s" % (
+                             in_dtype, v, out, r, case["form"],
+                             sorted(dtype_ref.convert_value(v, out))))
     return nontrivial
 
 
